@@ -412,6 +412,40 @@ ALayout(e) ==
        /\ obs' = Obs("layout", {"C10"}, IF bad THEN {"C10"} ELSE {}, <<n, StoredChunkNum(n), StoredBlocks(n)>>, e.res)
        /\ Frame
 
+-----------------------------------------------------------------------------
+(* Schedules, races and writer faults: outcome events judged by the specification *)
+
+\* C09: every process of a forced schedule / free-running group finished
+AStuck(e) ==
+    /\ obs' = Obs(e.ev, {"C09"}, IF e.stuck > 0 THEN {"C09"} ELSE {}, 0, e.stuck)
+    /\ Frame
+
+\* C09 / C14: the race detector reported no unsynchronised access inside ice
+ARace(e) ==
+    /\ obs' = Obs("race_report", {e.prop}, IF e.n > 0 THEN {e.prop} ELSE {}, 0, e)
+    /\ Frame
+
+\* C12: one outcome <<k, err, delivered, complete, prefix, n>> of a run whose writer fails from
+\* byte k on ("fail") or whose close channel is closed once k bytes were written ("close");
+\* L is the length of the fault-free file.
+OutcomeBad(o, mode, L) ==
+    LET k == o[1]  err == o[2]  complete == o[4]  n == o[6] IN
+    IF mode = "fail"
+    THEN \/ err \in {"panic", "blocked", "closed"}
+         \/ (k < L /\ err = "nil")                              \* silent success on a failed writer
+         \/ (k >= L /\ (err # "nil" \/ ~complete \/ n # L))      \* nothing failed: must succeed fully
+    ELSE \/ err \notin {"nil", "closed"}
+         \/ (err = "nil" /\ (~complete \/ n # L))                \* success only for the complete file
+
+AWFault(e) ==
+    LET bad == IF e.res.kind # "ok" THEN {"C12"}
+               ELSE IF \E i \in DOMAIN e.outcomes : OutcomeBad(e.outcomes[i], e.mode, e.L) THEN {"C12"} ELSE {}
+        firstBad == IF e.res.kind = "ok" /\ bad # {}
+                    THEN e.outcomes[CHOOSE i \in DOMAIN e.outcomes : OutcomeBad(e.outcomes[i], e.mode, e.L)]
+                    ELSE <<>>
+    IN /\ obs' = Obs("wfault", {"C12"}, bad, <<e.kind, e.mode, e.buf, e.L>>, firstBad)
+       /\ Frame
+
 \* the harness dropped its temporary handles; forget them too (keeps the tables small)
 Without(tab, h) == [k \in DOMAIN tab \ {h} |-> tab[k]]
 AForget(e) ==
